@@ -3,6 +3,9 @@ import json
 import os
 import re
 import vlib
+import codec
+import flowjobs
+import gen_flow
 
 LEVEL = "model_checking"
 
@@ -56,3 +59,66 @@ def check(ctx):
     if r2.status == "ok":
         raise vlib.Infra("binding self-test failed: a retyped element in the dump was accepted")
     ctx.binding_selftests.append({"corrupt": "loaded[%d].type unsigned32->unsigned64" % mut[i]["key"], "refuted": r2.violated})
+    decoding_agrees(ctx)
+
+
+def decoding_agrees(ctx):
+    """'Decoding therefore does not change depending on whether the file is installed': the same histories are decoded by
+    the real IPFIX and NetFlow v9 decoders + JSON encoders twice - built-in table only, and with scripts/ipfix.elements
+    loaded by the real LoadExtElements - and the results (status, records, values, JSON) must be identical.  Histories:
+    one template + data set per group of 6 elements covering EVERY element of the snapshot at its own size (strings and
+    octet arrays variable-length for IPFIX) and at a reduced size, plus seeded full-range histories."""
+    thorough = ctx.tier == "thorough"
+    scripts = os.path.join(vlib.REPO, "scripts")
+    for proto in ("ipfix", "v9"):
+        g = gen_flow.Gen(ctx.rng, proto)
+        name = codec.P[proto]["name"]
+        ids = sorted(g.model)
+        hist = []
+        for variant in ("own", "reduced"):
+            for k in range(0, len(ids), 6):
+                fields = []
+                for e in ids[k:k + 6]:
+                    t = g.model[e]
+                    if t in ("string", "octetArray"):
+                        ln = gen_flow.VARLEN if (proto == "ipfix" and variant == "own") else 5
+                    elif t in gen_flow.SIZES:
+                        ln = gen_flow.SIZES[t] if variant == "own" else max(1, gen_flow.SIZES[t] - 1)
+                    else:
+                        ln = 4
+                    fields.append({"e": e, "l": ln, "pen": 0, "t": t})
+                tpl = {"id": 256 + len(hist) // 2, "scope": [], "fields": fields}
+                body = g.enc_tpl_rec(tpl)
+                ts = g.enc_set(2 if proto == "ipfix" else 0, body, 0 if proto == "ipfix" else (-len(body)) % 4)
+                recs = g.enc_record(tpl) + g.enc_record(tpl)
+                ds = g.enc_set(tpl["id"], recs, 0 if proto == "ipfix" else ((-len(recs)) % 4 if (-len(recs)) % 4 < g.minlen(tpl) else 0))
+                hist.append(g.header(1, len(ts)) + ts)
+                hist.append(g.header(2, len(ds)) + ds)
+        exp = [10, 1, 2, 3]
+        jobs = [{"msgs": [{"exp": exp, "buf": m} for m in hist[i:i + 2]], "want_json": True} for i in range(0, len(hist), 2)]
+        for _ in range(300 if thorough else 60):
+            jobs.append({"msgs": [{"exp": exp, "buf": m} for m in g.history(4)], "want_json": True})
+        a = flowjobs.run_jobs(ctx, codec.driver(ctx, proto), codec.P[proto]["jobs"], jobs, tag="c20a_" + proto)
+        b = flowjobs.run_jobs(ctx, codec.driver(ctx, proto), codec.P[proto]["jobs"], jobs, env={"VERIF_ELEMENTS_DIR": scripts}, tag="c20b_" + proto)
+        nrec = 0
+        for job, ra, rb in zip(jobs, a, b):
+            if ra.get("skipped") or rb.get("skipped"):
+                continue
+            if "killed" in ra or "killed" in rb:
+                ctx.violation("%s: decoding %s killed the process" % (name, "with the file installed" if "killed" in rb else "without the file"),
+                              {"history": job["msgs"]}, key=proto + ":killed")
+                continue
+            for i, (xa, xb) in enumerate(zip(ra["res"], rb["res"])):
+                ctx.count([proto, "decode-both-ways", job["msgs"][i]["buf"]], nontrivial=bool(xa.get("recs")))
+                nrec += len(xa.get("recs") or [])
+                ka = {k: xa.get(k) for k in ("st", "recs", "json", "panic")}
+                kb = {k: xb.get(k) for k in ("st", "recs", "json", "panic")}
+                if ka != kb:
+                    what = next(k for k in ka if ka[k] != kb[k])
+                    ctx.violation("%s: decoding changes when scripts/ipfix.elements is installed: message %d of a history differs in '%s' "
+                                  "(built-in: %s, %d records; with the file: %s, %d records)"
+                                  % (name, i, what, xa["st"], len(xa.get("recs") or []), xb["st"], len(xb.get("recs") or [])),
+                                  {"proto": proto, "history": job["msgs"][:i + 1]}, key=proto + ":decode-differs")
+                    break
+        ctx.traces_validated += len(jobs)
+        ctx.extra.setdefault("decoded_both_ways", {})[proto] = {"histories": len(jobs), "records": nrec, "elements": len(ids)}
